@@ -12,6 +12,7 @@ import (
 	"time"
 
 	kv "github.com/XiXi-2024/xixi-kv"
+	"github.com/XiXi-2024/xixi-kv/datafile"
 	"github.com/XiXi-2024/xixi-kv/fio"
 )
 
@@ -47,6 +48,10 @@ func (r *EngineRunner) lockSnapshot() string {
 
 func (r *EngineRunner) execLock(f []string) string {
 	switch f[1] {
+	case "straylock":
+		_ = os.WriteFile(filepath.Join(r.mergeDir(), datafile.FileLockSuffix), nil, 0644)
+		_ = os.WriteFile(filepath.Join(r.mergeDir(), "README.txt"), []byte("not a data file"), 0644)
+		return ""
 	case "open2":
 		before := r.lockSnapshot()
 		db2, err := kv.Open(parseOpts(f[2:], r.dir()))
